@@ -420,6 +420,8 @@ func PublishContext[T any](bus *EventBus, ctx context.Context, event T) {
 				if !filterFunc(event) {
 					continue // Skip this handler as event doesn't match filter
 				}
+			} else if !filterAccepts(h.filter, event) {
+				continue // Same, for an event published through an interface value
 			}
 		}
 
@@ -551,6 +553,24 @@ func HandlerCount[T any](bus *EventBus) int {
 // Wait blocks until all async handlers complete
 func (bus *EventBus) Wait() {
 	bus.wg.Wait()
+}
+
+// filterAccepts evaluates a filter whose parameter type is not the static type
+// parameter of the publish, e.g. when the event is published through an
+// interface value (Publish[any]). Like the reflection fallback for handlers, it
+// calls the predicate with the event's dynamic value. A filter that cannot take
+// the event is ignored.
+func filterAccepts(filter any, event any) bool {
+	fv := reflect.ValueOf(filter)
+	ft := fv.Type()
+	if ft.Kind() != reflect.Func || ft.NumIn() != 1 || ft.NumOut() != 1 || ft.Out(0).Kind() != reflect.Bool {
+		return true
+	}
+	ev := reflect.ValueOf(event)
+	if !ev.IsValid() || !ev.Type().AssignableTo(ft.In(0)) {
+		return true
+	}
+	return fv.Call([]reflect.Value{ev})[0].Bool()
 }
 
 // callHandlerWithContext calls a handler with proper type checking and panic recovery
